@@ -26,7 +26,38 @@ CLAIMED = {
         'DESIGN.md section 6 C06'),
 }
 
-NOT_YET = 'not yet claimed: contracts for this property are still being brought under the verifier (DESIGN.md section 6)'
+CLAIMED['C05'] = (
+    'Proof, for all field values that fit their wire fields and lists of any length: every to_bytes of message.py '
+    '(Transform, Proposal, SA, KE, ID, AUTH, NONCE, NOTIFY, DELETE, VENDOR, TS/selector, SK, the payload chain '
+    'with its next-payload / last-more markers, and the IKE header with flags, version nibbles, Message ID and total '
+    'length) equals the RFC 7296 section 3 layout written as independent specification functions '
+    '(contracts/rfc_spec.py); every parser returns the RFC reading of the bytes (direct decode specifications for '
+    'header, KE, ID, AUTH, NONCE, VENDOR, NOTIFY, selector/TS, transform incl. first Key Length attribute, proposal, '
+    'SA), which with the encoder clauses gives the field-by-field round trip; a chain is accepted only if it ends '
+    'exactly at the end of the data; unknown critical payloads can only be rejected with '
+    'UnsupportedCriticalPayload.  Loops carry written++enc(rest)==total / parsed++dec(rest)==total invariants, '
+    'unbounded.',
+    'Not decided here (listed in DESIGN.md section 8): skip-unknown / result-list content of _parse_payloads as a '
+    'decode specification, DELETE SPI list content (count only), to_dict field rendering, and idempotence on '
+    'arbitrary accepted byte strings stated as one theorem (it follows from E + D on the parser range, which is not '
+    'machine-checked as a lemma).  Protected messages are covered for payloads == [] (what the daemon emits).  '
+    'Assumes T1, T2 (AES/HMAC uninterpreted), T4; the proof of Message.to_bytes uses a z3 seed portfolio.',
+    'DESIGN.md section 6 C05')
+CLAIMED['C07'] = (
+    'Proof, for every plaintext length, supported AES key length, integrity algorithm, key and IV: '
+    'PayloadSK.generate pads to a whole number of blocks with a correct Pad Length octet and lays out '
+    'IV | ciphertext | ICV placeholder; Message.to_bytes of a protected message is exactly '
+    'header | SK generic header | IV | ciphertext | MAC, the MAC being the negotiated HMAC truncated to the negotiated '
+    'length over ALL bytes before it, with correct total / payload lengths; Message.parse hands out inner payloads '
+    'only if the checksum over data[:-icv] equals data[-icv:] (no path skips the comparison); PayloadSK.decrypt '
+    'returns (IV, unpad(dec(ciphertext))) and the lemma decrypt(generate(c)) == c holds.',
+    'That a modified datagram or another key yields a different MAC is the cryptographic assumption T3 (HMAC is an '
+    'uninterpreted function); AES-CBC encrypt/decrypt are trusted contracts (T2) probed natively; the clause "every '
+    'message an endpoint emits after IKE_SA_INIT is fully encrypted" is an ikesa.py clause checked with the Tier B '
+    'contracts (generate_request/generate_response) once those are registered.',
+    'DESIGN.md section 6 C07')
+
+NOT_YET ='not yet claimed: contracts for this property are still being brought under the verifier (DESIGN.md section 6)'
 
 
 def main():
